@@ -67,6 +67,9 @@ class SccContext:
     self.previous_word: Optional[SccWord] = None
     self.previous_word_type: Optional[Type] = None
 
+    # Frame count at which the line that follows the current one starts if it is sent without pause
+    self.next_line_frames: Optional[int] = None
+
     # Caption style (Pop-on, Roll-up, Paint-on) currently processed
     self.current_style = SccCaptionStyle.default()
     # Buffered caption being built
@@ -402,7 +405,7 @@ class SccContext:
           self.push_active_caption_to_model(time_code)
           return
 
-        if self.active_caption.get_current_text().is_empty():
+        if self.active_caption.is_empty():
           self.count -= 1
           previous_lines = []
         else:
